@@ -196,6 +196,15 @@ def cases(tier, seed):
                 ov = ["*" if (ovk == "star" or (ovk == "mixed" and k % 2)) else "1M" for k in range(no)]
                 for vlevel in (1, 2, 3):
                     out.append(("line", "gfa1", "P\tp\t%s\t%s" % (",".join(segs[:ns]), ",".join(ov)), vlevel))
+    # interval grids on lines taken alone: F lines (both intervals) and E lines that are not connected
+    posv = ["0", "2", "5", "8$", "5$", "0$"]
+    for b in posv:
+        for e in posv:
+            for vlevel in (1, 2, 3):
+                out.append(("line", "gfa2", "F\tA\tx+\t%s\t%s\t0\t4\t*" % (b, e), vlevel))
+                out.append(("line", "gfa2", "F\tA\tx+\t0\t4\t%s\t%s\t*" % (b, e), vlevel))
+                out.append(("line", "gfa2", "E\t*\tA+\tB-\t%s\t%s\t0\t4\t*" % (b, e), vlevel))
+                out.append(("line", "gfa2", "E\te1\tA+\tB-\t0\t4\t%s\t%s\t*" % (b, e), vlevel))
     # document level: `$` against the length of the segment, for known and unknown sequences of either segment
     for seq1 in ("*", "ACGTACGT"):
         for seq2 in ("*", "ACGTACGT"):
